@@ -134,12 +134,20 @@ func idemMain(s *simrt.Sim, info *harness.RunInfo) {
 	opOfTask := map[int]*idemOp{} // task -> request in flight
 	running := func() *idemOp { return opOfTask[simrt.TaskID()] }
 
+	// spelling of header names: in the configuration and in the handler, independently; with
+	// DisableHeaderNormalizing the handler's spelling is what goes into the response
+	spellOf := func(k int) func(string) string {
+		return [](func(string) string){func(n string) string { return n }, strings.ToLower, strings.ToUpper}[k]
+	}
+	cfgSpell, hdlSpell := s.Draw(3), s.Draw(3)
+	disableNorm := s.Chance(250)
+	csp, hsp := spellOf(cfgSpell), spellOf(hdlSpell)
 	cfg := idempotency.Config{Lifetime: lifetime}
 	switch keepMode {
 	case 1:
-		cfg.KeepResponseHeaders = []string{"X-Exec", "X-Multi", "X-Single", "Content-Type"}
+		cfg.KeepResponseHeaders = []string{csp("X-Exec"), csp("X-Multi"), csp("X-Single"), csp("Content-Type")}
 	case 2:
-		cfg.KeepResponseHeaders = []string{"X-Exec", "X-Multi"}
+		cfg.KeepResponseHeaders = []string{csp("X-Exec"), csp("X-Multi")}
 	}
 	var sim *harness.SimStorage
 	var keyGuard *harness.KeyGuard
@@ -172,13 +180,16 @@ func idemMain(s *simrt.Sim, info *harness.RunInfo) {
 		}
 		cfg.Lock = lk
 	}
-	cfgLine := fmt.Sprintf("faults=%v storage=%s lifetime=%v keep=%d keys=%d clients=%d preempt=%d locker=%v failPermille=%d dense=%v", faults,
-		map[bool]string{false: "storage-memory", true: "sim"}[useSim], lifetime, keepMode, nkeys, nclients, preempt, lk != nil, failPermille, dense)
+	cfgLine := fmt.Sprintf("faults=%v storage=%s lifetime=%v keep=%d keys=%d clients=%d preempt=%d locker=%v failPermille=%d dense=%v spelling=%d/%d noNormalizing=%v", faults,
+		map[bool]string{false: "storage-memory", true: "sim"}[useSim], lifetime, keepMode, nkeys, nclients, preempt, lk != nil, failPermille, dense, cfgSpell, hdlSpell, disableNorm)
 	s.Logf("cfg %s", cfgLine)
 
 	nexec := 0
 	var execs []*idemExec
-	app := fiber.New()
+	app := fiber.New(fiber.Config{DisableHeaderNormalizing: disableNorm})
+	if disableNorm && hdlSpell != 0 {
+		s.Count("probe_non_canonical_response_header_names")
+	}
 	// an upstream middleware that is still busy after the chain returned: the replayed
 	// or recorded response is not on the wire yet while other requests are served
 	lateUpstream := s.Chance(400)
@@ -211,12 +222,12 @@ func idemMain(s *simrt.Sim, info *harness.RunInfo) {
 			return fiber.NewError(503, "handler failed")
 		}
 		ex.ok = true
-		c.Set("X-Exec", strconv.Itoa(ex.n))
+		c.Set(hsp("X-Exec"), strconv.Itoa(ex.n))
 		for _, v := range op.multi {
-			c.Response().Header.Add("X-Multi", v)
+			c.Response().Header.Add(hsp("X-Multi"), v)
 		}
 		if op.single != "" {
-			c.Set("X-Single", op.single)
+			c.Set(hsp("X-Single"), op.single)
 		}
 		c.Status(op.status)
 		if op.body == "" {
@@ -310,7 +321,7 @@ func idemMain(s *simrt.Sim, info *harness.RunInfo) {
 				op.ret, op.retT = s.Stamp(), time.Now()
 				op.returned = true
 				op.rstatus, op.rbody = resp.Status, string(resp.Body)
-				op.rmulti, op.rsingle, op.rexec = resp.Header["X-Multi"], resp.Get("X-Single"), resp.Get("X-Exec")
+				op.rmulti, op.rsingle, op.rexec = resp.Values("X-Multi"), resp.GetFold("X-Single"), resp.GetFold("X-Exec")
 				s.Logf("op%d ret status=%d body=%q exec=%q multi=%v single=%q", op.id, op.rstatus, op.rbody, op.rexec, op.rmulti, op.rsingle)
 			}
 		})
